@@ -19,6 +19,8 @@ def run(c):
     r3(c)
     r4(c)
     r5(c)
+    r6(c)
+    r7(c)
 
 
 def r1(c):
@@ -213,3 +215,90 @@ def r5(c):
     c.check("C19.R5", G.equivalent(f, G.Or(G.Not(G.Atom("safe")), G.Atom("is_safe"))), repo.loc(m, anchor), "new_files/safe-filter", f"included under {G.show(f)}; expected ¬safe ∨ is_safe", key_text="safe")
     ok = norm(key) == f"{ev}.path" and norm(val) == f"({ev}.output, {ev}.reload)" and norm(it) == "self.entire_results.values()"
     c.check("C19.R5", ok, repo.loc(m, anchor), "new_files/entry", "entry is not path -> (output, reload) of every stored result", key_text="entry")
+
+
+NORMALISERS = {"rstrip", "strip", "lstrip", "lower", "upper", "casefold", "expandtabs", "replace", "translate", "removesuffix", "removeprefix", "title", "capitalize", "swapcase"}
+
+
+def _line_transforms(repo, m, cls, fn, expr, depth=0):
+    """string-normalising calls a value passes through on its way from the texts, through locals, comprehensions and self.<helper>() return values"""
+    out = []
+    if depth > 3:
+        return out
+    pv = Provenance(fn)
+    todo, seen = [expr], set()
+    while todo:
+        e = todo.pop()
+        if id(e) in seen:
+            continue
+        seen.add(id(e))
+        for x in ast.walk(e):
+            if isinstance(x, ast.Name) and isinstance(x.ctx, ast.Load):
+                for d in pv.rd.defs(x):
+                    if d.value is not None and d.kind != "param":
+                        todo.append(d.value)
+            if isinstance(x, ast.Call):
+                if isinstance(x.func, ast.Attribute) and x.func.attr in NORMALISERS:
+                    out.append((x, fn))
+                elif call_name(x) in ("re.sub", "re.subn"):
+                    out.append((x, fn))
+                if isinstance(x.func, ast.Attribute) and isinstance(x.func.value, ast.Name) and x.func.value.id in ("self", "cls") and cls is not None:
+                    h = repo.class_attr(m, cls, x.func.attr)
+                    if h and isinstance(h[2], ast.FunctionDef) and h[2] is not fn:
+                        hf = h[2]
+                        for r in walk_no_nested(hf):
+                            if isinstance(r, ast.Return) and r.value is not None:
+                                out.extend(_line_transforms(repo, h[0], cls, hf, r.value, depth + 1))
+    return out
+
+
+def r6(c):
+    repo = c.repo
+    c.rule("C19.R6", "the line diff that decides whether a file differs compares the texts as they are: in UnifiedFileDiffer._diff_text_file the two sequences handed to "
+                     "difflib.unified_diff derive from old/new through splitlines() only — no per-line normalisation (strip/rstrip/lower/replace/re.sub ...), which would make "
+                     "files that differ in what was normalised away count as unchanged (not shown, not uploaded, not reloaded)")
+    DIFF = "annet.diff"
+    m = repo.module(DIFF)
+    cls = repo.cls(DIFF, "UnifiedFileDiffer")
+    fn = repo.func(DIFF, "UnifiedFileDiffer._diff_text_file", canon=False)
+    c.count("functions")
+    ud = [x for x in calls_in(fn) if call_name(x).endswith("unified_diff")]
+    if len(ud) != 1 or len(ud[0].args) < 2:
+        raise AnchorError("_diff_text_file: difflib.unified_diff(old_lines, new_lines, ...) not found")
+    for i, side in ((0, "old"), (1, "new")):
+        tr = _line_transforms(repo, m, cls, fn, ud[0].args[i])
+        if tr:
+            x, f = tr[0]
+            c.violated("C19.R6", repo.loc(m, x), f"_diff_text_file/{side}-lines", f"the {side} lines pass through `{norm(x)[:50]}` before being compared: contents that differ only in what this "
+                       "removes give an empty diff, so the file is neither shown by `annet diff` nor uploaded by deploy although its bytes differ", key_text="normalised-lines")
+        else:
+            c.holds("C19.R6", repo.loc(m, ud[0]), f"_diff_text_file/{side}-lines", "splitlines() only")
+
+
+def r7(c):
+    repo = c.repo
+    c.rule("C19.R7", "an Entire generator's declared priority is kept as declared: Entire.__init__ supplies the default prio only when none was declared (hasattr / `is None` test), "
+                     "never through the truth value of prio — 0 is a priority, and would be promoted above every generator declaring 1..99")
+    ENT = "annet.generators.entire"
+    m = repo.module(ENT)
+    fn = repo.func(ENT, "Entire.__init__", canon=False)
+    c.count("functions")
+    gm = GuardMap(fn)
+    stores = [n for n in walk_no_nested(fn) if isinstance(n, ast.Assign) and norm(n.targets[0]) == "self.prio"]
+    if not stores:
+        c.holds("C19.R7", repo.loc(m, fn), "Entire.__init__/prio-default", "prio is not assigned in __init__ (class attribute decides)", trivial=True)
+        return
+    for st in stores:
+        bad = None
+        v = st.value
+        for x in ast.walk(v):
+            if isinstance(x, ast.BoolOp) and any(norm(o) == "self.prio" or (isinstance(o, ast.Call) and call_name(o) == "getattr" and "prio" in norm(o)) for o in x.values[:-1]):
+                bad = f"`{norm(v)[:50]}` uses the truth value of self.prio"
+            if isinstance(x, ast.IfExp) and norm(x.test) in ("self.prio", "not self.prio"):
+                bad = f"`{norm(v)[:50]}` tests the truth value of self.prio"
+        for t, pol in gm.of(st):
+            for x in ast.walk(t):
+                if norm(x) == "self.prio" and not isinstance(getattr(x, "_parent", None), (ast.Compare, ast.Call, ast.Attribute)):
+                    bad = f"the default is assigned under `{'' if pol else 'not '}{norm(t)[:40]}` (truth value of self.prio)"
+        c.check("C19.R7", bad is None, repo.loc(m, st), "Entire.__init__/prio-default", f"{bad}: a generator declaring prio = 0 gets the default instead and wins over generators with a higher "
+                "declared priority for the same path", key_text="prio-truthiness")
